@@ -140,6 +140,9 @@ pub fn explore<M: Machine>(init: M, cfg: &ExploreCfg, rep: &mut Report, props: &
                     for (sid, m) in &frontier_ref[lo..hi] {
                         ops.clear();
                         m.ops(&mut ops);
+                        if reverse_ops() {
+                            ops.reverse();
+                        }
                         for op in &ops {
                             let mut n = m.fork();
                             let mut out = StepOut::new();
@@ -266,6 +269,12 @@ pub fn explore<M: Machine>(init: M, cfg: &ExploreCfg, rep: &mut Report, props: &
 /// resident set size of this process in GiB (0 when it cannot be read)
 pub fn rss_gb() -> f64 {
     std::fs::read_to_string("/proc/self/statm").ok().and_then(|s| s.split_whitespace().nth(1).and_then(|p| p.parse::<f64>().ok())).map(|pages| pages * 4096.0 / (1u64 << 30) as f64).unwrap_or(0.0)
+}
+
+/// self-check switch: expand operations in reverse menu order. With a complete state key the set of reachable
+/// keys (hence the state count) cannot depend on the expansion order.
+pub fn reverse_ops() -> bool {
+    std::env::var("VERIF_REVERSE_OPS").map(|v| v == "1").unwrap_or(false)
 }
 
 pub fn max_rss_gb() -> f64 {
@@ -456,4 +465,119 @@ pub fn run_script<M: Machine>(m: &mut M, ops: &[String], parse: &dyn Fn(&str) ->
         }
     }
     lines
+}
+
+/// Debug / self-check helper: depth-first exploration (single thread) returning the set of reachable keys and,
+/// for each key, the path that first reached it.
+pub fn reach_dfs<M: Machine>(init: M) -> std::collections::HashMap<u128, Vec<String>> {
+    let mut seen: std::collections::HashMap<u128, Vec<String>> = std::collections::HashMap::new();
+    let mut stack: Vec<(M, Vec<String>)> = Vec::new();
+    seen.insert(init.key(), vec![]);
+    stack.push((init, vec![]));
+    let mut ops = Vec::new();
+    while let Some((m, path)) = stack.pop() {
+        ops.clear();
+        m.ops(&mut ops);
+        for op in &ops {
+            let mut n = m.fork();
+            let mut out = StepOut::new();
+            if std::panic::catch_unwind(std::panic::AssertUnwindSafe(|| n.apply(op, &mut out))).is_err() {
+                continue;
+            }
+            let k = n.key();
+            if !seen.contains_key(&k) {
+                let mut p = path.clone();
+                p.push(M::op_str(op));
+                seen.insert(k, p.clone());
+                stack.push((n, p));
+            }
+        }
+    }
+    seen
+}
+
+pub fn reach_bfs<M: Machine>(init: M) -> std::collections::HashMap<u128, Vec<String>> {
+    let mut seen: std::collections::HashMap<u128, Vec<String>> = std::collections::HashMap::new();
+    let mut q: std::collections::VecDeque<(M, Vec<String>)> = std::collections::VecDeque::new();
+    seen.insert(init.key(), vec![]);
+    q.push_back((init, vec![]));
+    let mut ops = Vec::new();
+    while let Some((m, path)) = q.pop_front() {
+        ops.clear();
+        m.ops(&mut ops);
+        for op in &ops {
+            let mut n = m.fork();
+            let mut out = StepOut::new();
+            if std::panic::catch_unwind(std::panic::AssertUnwindSafe(|| n.apply(op, &mut out))).is_err() {
+                continue;
+            }
+            let k = n.key();
+            if !seen.contains_key(&k) {
+                let mut p = path.clone();
+                p.push(M::op_str(op));
+                seen.insert(k, p.clone());
+                q.push_back((n, p));
+            }
+        }
+    }
+    seen
+}
+
+/// Debug: find two machines with equal keys whose successor key lists differ (an incomplete key)
+pub fn find_key_incompleteness<M: Machine>(init: M, limit: usize) -> Option<(Vec<String>, Vec<String>, String)> {
+    let succ = |m: &M| -> Vec<(String, u128)> {
+        let mut ops = Vec::new();
+        m.ops(&mut ops);
+        ops.iter()
+            .filter_map(|op| {
+                let mut n = m.fork();
+                let mut out = StepOut::new();
+                std::panic::catch_unwind(std::panic::AssertUnwindSafe(|| n.apply(op, &mut out))).ok().map(|_| (M::op_str(op), n.key()))
+            })
+            .collect()
+    };
+    let mut seen: std::collections::HashMap<u128, (Vec<String>, Vec<(String, u128)>)> = std::collections::HashMap::new();
+    let mut q: std::collections::VecDeque<(M, Vec<String>)> = std::collections::VecDeque::new();
+    let s0 = succ(&init);
+    seen.insert(init.key(), (vec![], s0));
+    q.push_back((init, vec![]));
+    let mut ops = Vec::new();
+    while let Some((m, path)) = q.pop_front() {
+        if seen.len() > limit {
+            break;
+        }
+        ops.clear();
+        m.ops(&mut ops);
+        for op in &ops {
+            let mut n = m.fork();
+            let mut out = StepOut::new();
+            if std::panic::catch_unwind(std::panic::AssertUnwindSafe(|| n.apply(op, &mut out))).is_err() {
+                continue;
+            }
+            let k = n.key();
+            let mut p = path.clone();
+            p.push(M::op_str(op));
+            let s = succ(&n);
+            if let Some((p0, s_old)) = seen.get(&k) {
+                if *s_old != s {
+                    let diff = s_old.iter().zip(s.iter()).find(|(a, b)| a != b).map(|(a, b)| format!("{} -> {:032x} vs {} -> {:032x}", a.0, a.1, b.0, b.1)).unwrap_or_else(|| format!("different operation menus: {} vs {}", s_old.len(), s.len()));
+                    return Some((p0.clone(), p, diff));
+                }
+            } else {
+                seen.insert(k, (p.clone(), s));
+                q.push_back((n, p));
+            }
+        }
+    }
+    None
+}
+
+/// Self-check used by the thorough tiers: a breadth-first walk over at most `limit` states that recomputes the
+/// successor keys of every machine arriving at an already-known key and compares them with the first ones
+/// (one-step bisimulation of the state key). A mismatch means the key hides state and is a machinery error.
+pub fn key_selfcheck<M: Machine>(init: M, limit: usize, rep: &mut Report, label: &str) {
+    match find_key_incompleteness(init, limit) {
+        Some((a, b, d)) => rep.machinery(format!("{}: incomplete state key: histories [{}] and [{}] have equal keys but different successors ({})", label, a.join(","), b.join(","), d)),
+        None => rep.count("state_key_selfchecks_passed", 1),
+    }
 }
